@@ -332,8 +332,8 @@ V('role-copy-copy', 'C11', 'breaking',
                    "    r = bdd.ite(g, low, high)\n    # if r.negated:")],
   'R-ROLE/crossed/dd._copy._copy_bdd', 'ite(g, LOW, HIGH)')
 V('role-load', 'C12', 'breaking',
-  [(B, "        r = self.find_or_add(j, p, q)\n        if r <= 0:",
-       "        r = self.find_or_add(j, q, p)\n        if r <= 0:")],
+  [(B, "        r = self._ite(g, q, p)\n        if r <= 0:",
+       "        r = self._ite(g, p, q)\n        if r <= 0:")],
   'R-ROLE/crossed/dd.bdd.BDD._load', 'loader exchanges branches')
 V('role-json-writer', 'C12', 'breaking',
   [('dd/_copy.py', """[{u.level}, {low}, {high}]'""", """[{u.level}, {high}, {low}]'""")],
@@ -954,3 +954,63 @@ V('raw-benign-finally', 'C17', 'benign',
             self._reset_state()
         return u""")],
   None, 'reset moved into finally')
+
+# ----------------------------------------------------- R-DOMAIN / R-REBUILD
+D_ = 'dd/dddmp.py'
+V('domain-dddmp-roots-raw', 'C16', 'breaking',
+  [(D_, """    for root in roots:
+        r = umap[abs(root)]
+        if root < 0:
+            r = -r
+        bdd.roots.add(r)""", """    bdd.roots.update(roots)""")],
+  'R-DOMAIN/foreign-id/dd.dddmp.load/roots', 'F1 reintroduced')
+V('domain-dddmp-root-sign', 'C16', 'breaking',
+  [(D_, """        r = umap[abs(root)]
+        if root < 0:
+            r = -r
+        bdd.roots.add(r)""", """        r = umap[abs(root)]
+        bdd.roots.add(r)""")],
+  'R-SIGN/sign-lost/dd.dddmp.load', 'complemented roots lose their sign')
+V('domain-dddmp-level-unmapped', 'C16', 'breaking',
+  [(D_, "            r = bdd.find_or_add(i, p, q)", "            r = bdd.find_or_add(k, p, q)")],
+  'R-DOMAIN/foreign-id/dd.dddmp.load/find_or_add', 'file level used as manager level')
+V('domain-dddmp-child-unmapped', 'C16', 'breaking',
+  [(D_, "            p, q = umap[abs(v)], umap[w]", "            p, q = umap[abs(v)], w")],
+  'R-DOMAIN/foreign-id/dd.dddmp.load/find_or_add', 'file id used as a node')
+V('domain-load-level-unmapped', 'C12', 'breaking',
+  [(B, "        g = self.find_or_add(j, -1, 1)\n        r = self._ite(g, q, p)",
+       "        g = self.find_or_add(i, -1, 1)\n        r = self._ite(g, q, p)")],
+  'R-DOMAIN/foreign-id/dd.bdd.BDD._load', 'file level used in the manager')
+V('rebuild-load-mapped', ['C12', 'C02'], 'breaking',
+  [(B, "        g = self.find_or_add(j, -1, 1)\n        r = self._ite(g, q, p)",
+       "        r = self.find_or_add(j, p, q)")],
+  'R-REBUILD/mapped-level/dd.bdd.BDD._load', 'F3 reintroduced')
+V('rebuild-copy-mapped', ['C11', 'C02'], 'breaking',
+  [(B, "    g = bdd.find_or_add(jnew, -1, 1)\n    r = bdd.ite(g, q, p)",
+       "    r = bdd.find_or_add(jnew, p, q)")],
+  'R-REBUILD/mapped-level/dd.bdd._copy_bdd', 'copy at mapped level')
+V('domain-copy-level-unmapped', ['C11', 'C04'], 'breaking',
+  [(B, "    g = bdd.find_or_add(jnew, -1, 1)\n    r = bdd.ite(g, q, p)",
+       "    g = bdd.find_or_add(jold, -1, 1)\n    r = bdd.ite(g, q, p)")],
+  'R-DOMAIN/foreign-id/dd.bdd._copy_bdd', 'source level used in the target')
+V('domain-copy-levelmap-reversed', ['C11'], 'breaking',
+  [(B, """        from_bdd.level_of_var(var):
+            to_bdd.level_of_var(var)""", """        to_bdd.level_of_var(var):
+            from_bdd.level_of_var(var)""")],
+  'R-DOMAIN/level-map/dd.bdd.copy_bdd', 'level map reversed')
+V('domain-rename-partial', 'C04', 'breaking',
+  [(B, """        levels[var]: levels[dvars.get(var, var)]
+        for var in bdd.vars}""", """        levels[var]: levels[dvars[var]]
+        for var in dvars}""")],
+  'R-DOMAIN/level-map/dd.bdd.rename', 'variables that are not renamed lose their level')
+V('domain-mapnode-raw', 'C12', 'breaking',
+  [(B, """            v = umap[abs(u)]
+            if u < 0:
+                return - v
+            else:
+                return v""", """            v = umap[abs(u)]
+            if u < 0:
+                return - u
+            else:
+                return v""")],
+  'R-DOMAIN/foreign-return/dd.bdd.BDD.load.map_node', 'file id returned as root')
